@@ -58,4 +58,22 @@ Distinct(xs) == Cardinality({xs[i] : i \in DOMAIN xs})
 
 RECURSIVE IPow(_, _)
 IPow(b, k) == IF k = 0 THEN 1 ELSE b * IPow(b, k - 1)
+
+(* elementwise functions preloaded into every formula (transforms/__init__.py: exp10, exp2, log10, log2) on INTEGER arguments of either  *)
+(* sign: b^k is the exact rational b^k (k >= 0) or 1 / b^-k (k < 0) - never "the power taken in the argument's own integer type", which   *)
+(* has no value for k < 0 and wraps for large k.  Exp is defined up to 32-bit magnitudes; beyond them b^k is carried as the sequence of   *)
+(* factors b^c (|c| <= chunk, all of the sign of k, exponents summing to k) whose product - taken by the harness in unbounded integers -  *)
+(* is the value; the decomposition is licensed by the homomorphism law ExpHom.                                                           *)
+Exp(b, k) == IF k >= 0 THEN <<IPow(b, k), 1>> ELSE <<1, IPow(b, -k)>>
+RECURSIVE ExpChunks(_, _)
+ExpChunks(k, chunk) == IF Abs(k) <= chunk THEN <<k>> ELSE LET c == IF k > 0 THEN chunk ELSE -chunk IN <<c>> \o ExpChunks(k - c, chunk)
+ExpFactors(b, k, chunk) == LET ch == ExpChunks(k, chunk) IN [i \in DOMAIN ch |-> Exp(b, ch[i])]
+\* the logarithm to base b as the inverse by search: the k with b^k = r (unique because Exp is strictly increasing: ExpMonotone)
+LogB(b, r, bound) == CHOOSE k \in -bound..bound : Exp(b, k) = r
+RECURSIVE ISum(_)
+ISum(s) == IF s = <<>> THEN 0 ELSE Head(s) + ISum(Tail(s))
+ExpHom(b, k, bound) == \A j \in -bound..bound : Abs(j + k) <= bound => Exp(b, j + k) = RMul(Exp(b, j), Exp(b, k))
+ExpReciprocal(b, k) == Exp(b, -k) = RDiv(One, Exp(b, k))
+ExpMonotone(b, k) == RLt(Exp(b, k), Exp(b, k + 1)) /\ RMul(Exp(b, k), R(b)) = Exp(b, k + 1)
+ChunksSound(k, chunk) == LET ch == ExpChunks(k, chunk) IN ISum(ch) = k /\ \A i \in DOMAIN ch : Abs(ch[i]) <= chunk /\ (ch[i] < 0 <=> k < 0) /\ (ch[i] = 0 => k = 0)
 =============================================================================
